@@ -1,9 +1,111 @@
 import PraatModel.Proto
+import PraatModel.Audio
 
-/-! # driver operations for C16-C18: audio byte/sample arithmetic, zero crossings (extension point of `Run.lean`) -/
+/-! # driver operations for C16-C18: audio byte/sample arithmetic, zero crossings (extension point of `Run.lean`)
 
+Token syntax of this group (the F/X number modes play no role here: the same line is sent and
+returned in both):
+* time      : `num/den` — an exact rational (the exact value of the binary64 the code receives)
+* bytes     : `h` followed by lower-case hex (`h` alone = empty)
+* samples   : `<n> x1 … xn` decimal integers
+* optional  : `N` or the value
+* edit      : `ins <t> <bytes>` | `del <t> <t>` | `rep <t> <t> <bytes>` | `cat <bytes>` | `sub <t> <t>`
+-/
+
+namespace AudioProto
+open Audio
+
+def qtime : P QTime := do
+  let t ← P.tok
+  match t.splitOn "/" with
+  | [a, b] =>
+    match a.toInt?, b.toNat? with
+    | some n, some d => if d = 0 then throw s!"zero denominator {t}" else pure ⟨n, d⟩
+    | _, _ => throw s!"bad time {t}"
+  | _ => throw s!"bad time {t}"
+
+def bytes : P (List UInt8) := do
+  let t ← P.tok
+  match t.toList with
+  | 'h' :: cs =>
+    match P.hexBytes cs with
+    | some bs => pure bs
+    | none => throw "bad hex"
+  | _ => throw s!"bad bytes token {t}"
+
+def samples : P (List Int) := do let n ← P.nat; P.many n P.int
+
+def wav : P Wav := do
+  let w ← P.nat; let r ← P.nat; let f ← bytes
+  pure ⟨w, r, f⟩
+
+def edit : P Edit := do
+  match (← P.tok) with
+  | "ins" => do let t ← qtime; let g ← bytes; pure (.ins t g)
+  | "del" => do let s ← qtime; let e ← qtime; pure (.del s e)
+  | "rep" => do let s ← qtime; let e ← qtime; let g ← bytes; pure (.rep s e g)
+  | "cat" => do let g ← bytes; pure (.cat g)
+  | "sub" => do let s ← qtime; let e ← qtime; pure (.sub s e)
+  | t => throw s!"bad edit {t}"
+
+def outBytes (bs : List UInt8) : String :=
+  "h" ++ String.ofList (bs.flatMap fun b => [Out.hexDigit (b.toNat / 16), Out.hexDigit (b.toNat % 16)])
+
+def outSamples (xs : List Int) : String := Out.join (toString xs.length :: xs.map toString)
+
+def outExc {β} (f : β → String) : Except AErr β → String
+  | .ok v => "ok " ++ f v
+  | .error e => "err " ++ e.name
+
+/-- `len(frames) / frameRate / sampleWidth` in binary64, as CPython evaluates it -/
+def floatDuration (len rate width : Nat) : Float := Float.ofNat len / Float.ofNat rate / Float.ofNat width
+end AudioProto
+
+open Audio AudioProto in
 /-- `none` = not an operation of this group.  `α` is the number type of the run (`Float` or `Int`). -/
 def runOpAudio (α : Type) [LT α] [LE α] [DecidableLT α] [DecidableLE α] [BEq α] [Add α] [Sub α] [Tm α] [Proto α]
     (op : String) : Option (P String) :=
   match op with
+  | "a_round" => some do
+    let n ← P.int; let d ← P.nat
+    pure s!"ok {roundHalfEven n d}"
+  | "a_slice" => some do
+    let l ← bytes; let i ← P.int; let j ← P.int
+    pure s!"ok {outBytes (slice l i j)} {outBytes (sliceTo l i)} {outBytes (sliceFrom l j)}"
+  | "a_index" => some do
+    let w ← P.nat; let r ← P.nat; let t ← qtime
+    pure s!"ok {indexAtTime t r w}"
+  | "a_pack" => some do
+    let w ← P.nat; let xs ← samples
+    pure (outExc outBytes (convertToBytes xs w))
+  | "a_unpack" => some do
+    let w ← P.nat; let bs ← bytes
+    pure (outExc outSamples (convertFromBytes bs w))
+  | "a_getframes" => some do
+    let wv ← wav; let s ← qtime; let e ← qtime
+    pure ("ok " ++ outBytes (wv.getFrames s e))
+  | "a_getsamples" => some do
+    let wv ← wav; let s ← qtime; let e ← qtime
+    pure (outExc outSamples (wv.getSamples s e))
+  | "a_duration" => some do
+    let wv ← wav
+    let d := wv.duration
+    pure s!"ok {d.num} {d.den} {(floatDuration wv.frames.length wv.rate wv.width).toBits.toNat}"
+  | "a_edits" => some do
+    let wv ← wav; let n ← P.nat; let es ← P.many n edit
+    pure ("ok " ++ Out.join ((runEdits wv es).map fun x => outBytes x.frames))
+  | "a_invdel" => some do
+    let wv ← wav; let t ← qtime; let g ← bytes; let e ← qtime
+    let mid := wv.insert t g
+    pure s!"ok {outBytes mid.frames} {outBytes (mid.deleteSegment t e).frames}"
+  | "a_saveopen" => some do
+    let wv ← wav
+    pure (outExc (fun (x : Wav) => s!"{x.width} {x.rate} {outBytes x.frames}") (wv.save >>= Wav.open))
+  | "a_readat" => some do
+    let wv ← wav; let s ← qtime; let e ← qtime
+    pure (outExc outBytes (readFramesAtTime ⟨wv.width, wv.rate, wv.frames⟩ s e))
+  | "a_query" => some do
+    let wv ← wav; let s ← P.opt qtime; let e ← P.opt qtime
+    let f : WavFile := ⟨wv.width, wv.rate, wv.frames⟩
+    pure (outExc (fun xs => s!"{f.width} {f.rate} {f.nframes} {outSamples xs}") (QueryWav.getSamples f s e))
   | _ => none
